@@ -129,6 +129,9 @@ package parser
 //@   loop 0 invariant forall(i, 0, len(fields), haskey(fieldMap, fields[i].Name))
 //@   loop 0 invariant forall(i, 0, len(fields), forall(j, 0, i, fields[i].Name != fields[j].Name))
 //@   loop 1 invariant forall(i, 0, len(fields), forall(j, 0, i, fields[i].Name != fields[j].Name))
+//@   ensures [C12:D9-fields-submitted] len(self.BinModel.SyntaxErrors) == old(len(self.BinModel.SyntaxErrors)) ==> len(unbox(result, *model.Packet).Fields) == nall(ctx, fieldDefinitionWithAttribute)
+//@   loop 0 invariant len(self.BinModel.SyntaxErrors) == old(len(self.BinModel.SyntaxErrors)) ==> len(fields) == rangeindex + 1
+//@   loop 1 invariant len(fields) == entry(len(fields)) && len(self.BinModel.SyntaxErrors) >= entry(len(self.BinModel.SyntaxErrors))
 //@   ensures [C12:D4-line] newErrorsHaveLines(self.BinModel, old(len(self.BinModel.SyntaxErrors))) && forall(i, 0, old(len(self.BinModel.SyntaxErrors)), self.BinModel.SyntaxErrors[i] == old(self.BinModel.SyntaxErrors[i]))
 //@   loop 0 invariant forall(i, 0, len(fields), fieldOK(fields[i])) && lengthOK(lengthField)
 //@   loop 0 invariant newErrorsHaveLines(self.BinModel, old(len(self.BinModel.SyntaxErrors))) && forall(i, 0, old(len(self.BinModel.SyntaxErrors)), self.BinModel.SyntaxErrors[i] == old(self.BinModel.SyntaxErrors[i])) && forall(j, 0, len(fields), haskey(positions, fields[j]) && positions[fields[j]][0] >= 1)
@@ -158,6 +161,9 @@ package parser
 //@   ensures [C06:algorithm-is-token-text] typeis(result, *model.Field) && csText(unbox(result, *model.Field))
 //@   ensures [C12:new-errors-have-lines] newErrorsHaveLines(self.BinModel, old(len(self.BinModel.SyntaxErrors))) && forall(i, 0, old(len(self.BinModel.SyntaxErrors)), self.BinModel.SyntaxErrors[i] == old(self.BinModel.SyntaxErrors[i]))
 //@   ensures isField(result)
+//@   ensures [C12:D9-inline-fields-submitted] len(self.BinModel.SyntaxErrors) == old(len(self.BinModel.SyntaxErrors)) ==> len(unbox(unbox(result, *model.Field).Attr, *model.ObjectFieldAttribute).RefPacket.Fields) == nall(decl, fieldDefinition)
+//@   loop 0 invariant len(self.BinModel.SyntaxErrors) == old(len(self.BinModel.SyntaxErrors)) ==> len(subFields) == rangeindex + 1
+//@   loop 1 invariant len(subFields) == entry(len(subFields)) && len(self.BinModel.SyntaxErrors) >= entry(len(self.BinModel.SyntaxErrors))
 //@   loop 0 invariant forall(i, 0, len(subFields), fieldOK(subFields[i]))
 //@   loop 1 invariant forall(i, 0, len(subFields), fieldOK(subFields[i]))
 //@   loop 0 invariant newErrorsHaveLines(self.BinModel, old(len(self.BinModel.SyntaxErrors))) && forall(i, 0, old(len(self.BinModel.SyntaxErrors)), self.BinModel.SyntaxErrors[i] == old(self.BinModel.SyntaxErrors[i]))
